@@ -152,6 +152,21 @@ func Programs() []*Program {
 		}
 	}
 	out = append(out, Single(&Pipeline{Source: *id("T")}), Single(&Pipeline{Source: *qid("my table")}))
+	// names spelled like keywords and operator names, quoted (any spelling) and unquoted (where the lexer gives an identifier)
+	for _, w := range []string{"let", "where", "by", "in", "and", "or", "count", "join", "kind", "on", "with", "as", "asc", "nulls", "true", "null", "T"} {
+		for _, quoted := range []bool{true, false} {
+			if !quoted && (w == "by" || w == "in" || w == "and" || w == "or" || w == "let") {
+				continue // keywords of the lexer / statement keyword: not identifiers when unquoted
+			}
+			name := Ident{Name: w, Quoted: quoted}
+			col := &Name{Parts: []Ident{name}}
+			out = append(out,
+				&Program{Stmts: []Stmt{&Let{Name: *id("n"), X: NumLit("3", "3")}, &Pipeline{Source: name, Ops: []Op{&Top{N: Col("n"), By: SortTerm{X: col, Dir: "desc"}}}}}},
+				Single(&Pipeline{Source: name, Ops: []Op{&Where{Kw: "where", Pred: &Binary{Op: "==", X: col, Y: &Name{Parts: []Ident{{Name: "t"}, name}}}}, &As{Name: name}}}),
+				Single(&Pipeline{Source: *id("T"), Ops: []Op{&Project{Cols: []Column{{Name: &name}, {Name: &name, X: col}}}, &Join{Right: &Pipeline{Source: name}, On: []Expr{col}}, &Summarize{Cols: []Column{{Name: &name, X: &Call{Func: "count"}}}, By: []Column{{Name: &name, X: col}}, HasBy: true}}}),
+			)
+		}
+	}
 	// lets and empty statements
 	q := &Pipeline{Source: *id("T"), Ops: []Op{&Take{Kw: "take", N: Col("n")}}}
 	lets := []Stmt{
